@@ -293,6 +293,18 @@ def D31():
     op = c.setup_optim_problem({'p': np.ones(tg.T)}, tg)
     return f"no error, {len(op.c)} variables"
 
+@witness
+def D32():
+    tg = grid(2); pr = sine(tg); out = []
+    for what, kw in {'ends after the horizon': dict(end=dt.datetime(2021, 1, 5)), 'entirely outside': dict(start=dt.datetime(2022, 1, 1), end=dt.datetime(2022, 2, 1))}.items():
+        for freq in (None, '4h'):
+            try:
+                pf = eao.portfolio.Portfolio([sc('a'), sc('c', min_cap=-1, max_cap=1, freq=freq, **kw)]); op = pf.setup_optim_problem(pr, tg)
+                eao.io.extract_output(pf, op, op.optimize(), pr); r = 'ok'
+            except Exception as e: r = 'raises ' + type(e).__name__
+            out.append(f"window {what}, freq={freq}: {r}")
+    return '; '.join(out)
+
 if __name__ == '__main__':
     which = sys.argv[1:] or list(W)
     for k in which:
